@@ -775,10 +775,14 @@ class Interp:
     def st_Assign(self, s):
         v = self.ev(s.value)
         for t in s.targets:
-            if isinstance(t, ast.Name) and self.contract is not None and t.id in getattr(self.contract, 'locals_sig', {}) \
+            lsig = getattr(self.contract, 'locals_sig', {}) if self.contract is not None else {}
+            rn = getattr(self.p, 'renames', None)
+            if rn and lsig:
+                lsig = {rn.get(k, k): v for k, v in lsig.items()}
+            if isinstance(t, ast.Name) and t.id in lsig \
                     and S.is_seq(v) and z3.is_true(z3.simplify(z3.Length(v) == 0)):
                 # an empty list literal for a local the contract wants array-backed
-                el = self.contract.locals_sig[t.id]
+                el = lsig[t.id]
                 arr = self.p.fresh(t.id + '_a', z3.ArraySort(z3.IntSort(), S.sort_of(el)))
                 v = ArrList(arr, z3.IntVal(0), el)
             self.assign(t, v)
@@ -987,6 +991,11 @@ class Interp:
         c = self.contract
         if c is None or ordinal not in c.invariants:
             self.oos(f'loop #{ordinal} without invariant', s)
+        rn = getattr(self.p, 'renames', None)
+        if rn:
+            from .renames import rename_clause
+            dec = c.decreases.get(ordinal)
+            return ordinal, [rename_clause(x, rn) for x in c.invariants[ordinal]], rename_clause(dec, rn) if dec else dec
         return ordinal, c.invariants[ordinal], c.decreases.get(ordinal)
 
     def assigned_names(self, stmts) -> set[str]:
@@ -1096,7 +1105,15 @@ class Interp:
                 self.p.oblige('inv-keep', self.spec_eval(clause), s, f'loop#{ordinal} invariant preserved: {clause}')
             if dec:
                 m1 = self.spec_int(dec)
-                self.p.oblige('decreases', z3.And(m0 >= 0, m1 < m0), s, f'loop#{ordinal} measure {dec} decreases and is bounded', tag='property')
+                # the measure has to decrease only when another iteration follows (a loop may end by making its guard false)
+                goal = z3.And(m0 >= 0, m1 < m0)
+                if not (isinstance(s.test, ast.Constant) and s.test.value is True):
+                    try:
+                        again = self.spec_eval(ast.unparse(s.test))
+                        goal = z3.Implies(again if z3.is_expr(again) else z3.BoolVal(bool(again)), goal)
+                    except OutOfSubset:
+                        pass  # a guard that is not a plain expression: keep the stronger obligation
+                self.p.oblige('decreases', goal, s, f'loop#{ordinal} measure {dec} decreases and is bounded', tag='property')
             raise PathEnd()
         # guard false: fall through with invariant ∧ ¬guard
 
@@ -1126,6 +1143,8 @@ class Interp:
             return
         if s.orelse:
             self.oos('for/else', s)
+        if self._search_loop(s):
+            return
         it = s.iter
         mapped = None
         if isinstance(it, ast.GeneratorExp) and len(it.generators) == 1 and not it.generators[0].ifs:
@@ -1173,6 +1192,30 @@ class Interp:
                 self.p.oblige('inv-keep', self.spec_eval(clause), s, f'loop#{ordinal} invariant preserved: {clause}')
             raise PathEnd()
         # exhausted: i == length
+
+    def _search_loop(self, s) -> bool:
+        """`for x in xs: if c(x): return K` (nothing else in the body, K a constant) is `if any(c(x) for x in xs): return K`: the
+        explicit form of any()/all() needs no invariant.  The test is evaluated as a specification expression, so it has to be
+        free of effects (calls of functions under contract without `modifies`/`raises` stand for their defining postcondition)."""
+        c = self.contract
+        if c is not None and self.loop_ordinal in c.invariants:
+            return False
+        if len(s.body) != 1 or not isinstance(s.body[0], ast.If) or s.body[0].orelse:
+            return False
+        branch = s.body[0]
+        if len(branch.body) != 1 or not isinstance(branch.body[0], ast.Return):
+            return False
+        ret = branch.body[0].value
+        if not (ret is None or isinstance(ret, ast.Constant)):
+            return False
+        gen = ast.GeneratorExp(elt=branch.test, generators=[ast.comprehension(target=s.target, iter=s.iter, ifs=[], is_async=0)])
+        call = ast.Call(func=ast.Name(id='any', ctx=ast.Load()), args=[gen], keywords=[])
+        ast.copy_location(call, s)
+        ast.fix_missing_locations(call)
+        found = self.truth(self.ev(call), s)
+        if self.p.fork(found) if not isinstance(found, bool) else found:
+            raise Ret(None if ret is None else ret.value)
+        return True
 
     def iter_access(self, seqv, node):
         if isinstance(seqv, OpaqueSeq):
